@@ -24,8 +24,9 @@ type c19ReqCase struct {
 	C    struct {
 		Loc   string `json:"loc"`
 		Kw    string `json:"kw"`
-		Multi bool   `json:"multi"`
-		Hide  string `json:"hide"`
+		Multi  bool   `json:"multi"`
+		Hide   string `json:"hide"`
+		OptsAt string `json:"optsat"`
 	} `json:"c"`
 }
 
@@ -167,6 +168,14 @@ func c19Run(c *Case) []any {
 		return []any{line}
 	}
 	rvi := &openapi3filter.RequestValidationInput{Request: req, PathParams: pathParams, Route: route, Options: opts}
+	if tc.C.OptsAt == "resp" {
+		// the request input carries other, non-nil options (without the message function); the response input its own
+		rvi.Options = &openapi3filter.Options{MultiError: !tc.C.Multi}
+	}
+	late := tc.C.Hide == "nodetails_late"
+	if late {
+		openapi3.SchemaErrorDetailsDisabled = false
+	}
 	var verr error
 	p, msg := guard(func() {
 		if tc.C.Loc == "respbody" || tc.C.Loc == "respheader" {
@@ -193,6 +202,11 @@ func c19Run(c *Case) []any {
 		line["texts"] = []any{}
 	default:
 		line["verdict"] = "R"
+		if late {
+			// rendered once while details were enabled; from here on they are disabled
+			guard(func() { _ = verr.Error() })
+			openapi3.SchemaErrorDetailsDisabled = true
+		}
 		texts := []any{runeSeq(verr.Error())}
 		if me, ok := verr.(openapi3.MultiError); ok {
 			for _, e := range me {
